@@ -116,10 +116,11 @@ storage_set(struct Storage* self, const struct StorageProperties* settings)
         // stop it, so it does not leave the Running state either.
         const enum DeviceState previous = self->state;
         const enum DeviceState next = self->set(self, settings);
-        self->state = (previous == DeviceState_Running &&
-                       next == DeviceState_Armed)
-                        ? DeviceState_Running
-                        : next;
+        // (Leave the state alone in that case instead of writing Running
+        // back: the sink thread may be stopping the device right now, and a
+        // stale Running would make a later stop reach the stopped device.)
+        if (!(previous == DeviceState_Running && next == DeviceState_Armed))
+            self->state = next;
     }
     EXPECT(DeviceState_Armed == self->state ||
              DeviceState_Running == self->state,
